@@ -6,7 +6,7 @@ import random
 import yaml
 
 from .. import core, yamlapi, sigs
-from ..gen import gdoc, values as V, options as O, boundary
+from ..gen import gdoc, values as V, options as O, boundary, strings as S
 from ..mon import streams
 from ..ref import bisim
 
@@ -44,6 +44,8 @@ def plan(tier, seed):
         specs.append({'kind': 'emit', 'shard': i, 'n': 1000 if q else 20000, 'cext': 'plain'})
     specs.append({'kind': 'errors', 'shard': 0, 'n': 1500 if q else 20000, 'cext': 'plain'})
     specs.append({'kind': 'limits', 'shard': 0, 'n': 1, 'cext': 'plain'})
+    for i in range(2):
+        specs.append({'kind': 'dumppos', 'shard': i, 'of': 2, 'n': 1, 'cext': 'plain'})
     if not q:
         for i in range(2):
             specs.append({'kind': 'gdoc', 'shard': 100 + i, 'n': 6000, 'cext': 'asan'})
@@ -326,6 +328,17 @@ def run(spec, ctx):
             compare(text, ctx, case, want_ok=True)
         elif k == 'errors':
             error_case(r, ctx, i)
+        elif k == 'dumppos':
+            for case in pos_cases(spec['shard'], spec['of']):
+                ctx.crumb(case)
+                try:
+                    text = yaml.dump(pos_value(case['ch'], case['shape']), Dumper=getattr(yaml, case['D']), **case['opts'])
+                except yaml.YAMLError:
+                    ctx.stat('dump_rejected')
+                    continue
+                ctx.case(core.h64(text), True, ['dumppos:' + case['D'], 'shape%d' % case['shape']])
+                compare(text, ctx, case, want_ok=True)
+            ctx.sample({'class': 'unusual character at every lexically decisive position of dumper output', 'chars': len(S.ODD) + len(S.PYSPACE) + 22, 'shapes': POS_SHAPES})
         elif k == 'limits':
             # documents exactly on the simple-key length limit, in every key spelling: both back-ends must agree on either side of it
             for text, label in boundary.simple_key_docs():
@@ -336,9 +349,42 @@ def run(spec, ctx):
             ctx.sample({'class': 'simple-key length limits', 'lengths': '1019..1029, 126..129'})
 
 
+POS_SHAPES = 9
+
+
+def pos_value(ch, shape):
+    """An unusual character at every position of a dumper's output where a lexer decides something: start of a line
+    (first / later key, sequence item), start and end of a value, alone, inside flow collections, in a nested block."""
+    return [{'a': 1, ch + 'b': 2, 'c': ch}, [ch + 'x', 'y' + ch, ch], {'k': {ch + 'n': [ch + 'i', {'z' + ch: ch + 'v'}]}}, ch + 'root', {ch: ch},
+            ['p', [ch + 'q']], {'a': 'l1\n' + ch + 'l2\n', 'b': ch + ' s'}, [{ch + 'k': 1}, {'k2': ch + ch}], {'a': 1, 'b' + ch + 'c': ch + 'x' + ch}][shape]
+
+
+def pos_cases(shard, of):
+    k = 0
+    for ch in S.ODD + S.PYSPACE + ['-', '?', ':', '#', '%', '!', '&', '*', '|', '>', "'", '"', '@', '`', ',', '[', '{', ' ', '...', '---', '<<', '=']:
+        for shape in range(POS_SHAPES):
+            for au in (None, True):
+                for style in (None, '|', '>', "'", '"'):
+                    for flow in (None, True, False):
+                        for dname in ('SafeDumper', 'CSafeDumper'):
+                            k += 1
+                            if k % of == shard and (flow is None or style is None):
+                                opts = {}
+                                if au is not None:
+                                    opts['allow_unicode'] = au
+                                if style is not None:
+                                    opts['default_style'] = style
+                                if flow is not None:
+                                    opts['default_flow_style'] = flow
+                                yield {'kind': 'dumppos', 'ch': ch, 'shape': shape, 'opts': opts, 'D': dname}
+
+
 def replay(case, ctx):
     ctx.case(core.h64(repr(case)), True)
     k = case.get('kind')
+    if k == 'dumppos':
+        text = yaml.dump(pos_value(case['ch'], case['shape']), Dumper=getattr(yaml, case['D']), **case['opts'])
+        compare(text, ctx, case, want_ok=True)
     if k == 'gdoc':
         compare(case['text'], ctx, case)
     elif k == 'dump':
